@@ -164,6 +164,35 @@ def run(run):
                         run.violation("%s: tail(%d) raises %s" % (tag, n_rows, got[1]), {"kind": "tail", "tag": tag})
                     elif canon(got[1]) != canon(exp):
                         run.violation("%s: tail(%d) differs from the last rows of the last partition" % (tag, n_rows), {"kind": "tail", "tag": tag})
+        # nested heads / tails (merged into one node by the optimizer): the inner selection produces ONE partition, of which the
+        # outer takes its rows -- for all combinations of n and npartitions, with and without an operation in between
+        import pandas as pd
+        hp = pd.DataFrame({"a": range(40), "b": [i % 7 for i in range(40)]})
+        hd = rt.dx.from_pandas(hp, npartitions=8)
+        hparts = [hp.iloc[i * 5:(i + 1) * 5] for i in range(8)]
+        for n1, k1 in ((12, 3), (12, 2), (7, 2), (3, 1), (40, -1), (11, 8), (-3, 1)):   # (a negative n over several partitions is not "the first n rows": left out)
+            inner_exp = pd.concat(hparts if k1 == -1 else hparts[:k1]).head(n1)
+            for n2, k2 in ((9, 1), (12, -1), (5, 1), (2, 1), (-2, 1)):
+                for mid, f in (("", lambda x: x), ("+1 ", lambda x: x + 1)):
+                    nhead += 1
+                    run.count(("nested-head", n1, k1, n2, k2, mid))
+                    exp = f(inner_exp).head(n2)
+                    got = try_(lambda: f(hd.head(n1, npartitions=k1, compute=False)).head(n2, npartitions=k2, compute=False).compute())
+                    case = {"kind": "nested-head", "inner": [n1, k1], "outer": [n2, k2], "between": mid}
+                    if got[0] == "raise":
+                        run.violation("head(%d, npartitions=%d) %sthen head(%d, npartitions=%d) raises %s" % (n1, k1, mid, n2, k2, got[1]), case)
+                    elif canon(got[1]) != canon(exp):
+                        run.violation("head(%d, npartitions=%d) %sthen head(%d, npartitions=%d) returns %s, expected %s" % (n1, k1, mid, n2, k2, _short(canon(got[1])), _short(canon(exp))), case)
+        for n1 in (7, 3, -2):
+            for n2 in (4, 2, -1):
+                nhead += 1
+                run.count(("nested-tail", n1, n2))
+                exp = hparts[-1].tail(n1).tail(n2)
+                got = try_(lambda: hd.tail(n1, compute=False).tail(n2, compute=False).compute())
+                if got[0] == "raise":
+                    run.violation("tail(%d) then tail(%d) raises %s" % (n1, n2, got[1]), {"kind": "nested-tail", "n": [n1, n2]})
+                elif canon(got[1]) != canon(exp):
+                    run.violation("tail(%d) then tail(%d) returns %s, expected %s" % (n1, n2, _short(canon(got[1])), _short(canon(exp))), {"kind": "nested-tail", "n": [n1, n2]})
         # shuffles / joins with output subsets, sorted heads
         n = 40
         pdf = pd.DataFrame({"a": range(n), "b": [i % 7 for i in range(n)], "c": [(i * 7) % 11 for i in range(n)]})
